@@ -6,6 +6,7 @@ All statements quantify over every token tuple (hence, through `tokenize`, over 
 import MesonModel.Version.RangeLemmas
 import MesonModel.Version.TokLemmas
 import MesonModel.Version.GateLemmas
+import MesonModel.Version.EntryLemmas
 
 namespace MesonModel.Props.C19
 open MesonModel.Version MesonModel.Py
@@ -399,6 +400,225 @@ theorem gate_restore_on_signal_counterexample :
     (runBlockL prog {} none).1.log ≠ (runBlock prog {} none).log := by
   decide
 
+
+/-! ### The entry points through which a build file reaches version comparison
+
+`str.version_compare`, `meson.version().version_compare`, `dependency(version:)`, `subproject(version:)`,
+`find_program(version:)`, an external dependency's own check and `project(meson_version:)` each wrap
+`version_compare_many`/`version_compare` in logic of their own (`Version/Entry.lean`). -/
+
+/-- `'v'.version_compare(cs…)` holds iff each constraint holds -/
+theorem strCompare_iff_all (v : List Char) (cs : List (List Char)) :
+    strCompare v cs = true ↔ ∀ c ∈ cs, versionCompare v c = true := compareMany_iff_all v cs
+
+/-- `meson.version().version_compare(cs…)` holds iff each constraint holds — wherever a `!=` constraint
+stands in the list and whatever `tmp_meson_version` held -/
+theorem mvCompare_iff_all (v : List Char) (cs : List (List Char)) (tmp : GTmp) :
+    (mvCompare v cs tmp).1 = true ↔ ∀ c ∈ cs, versionCompare v c = true := compareMany_iff_all v cs
+
+/-- … hence it is the plain string method on the same arguments -/
+theorem mvCompare_eq_strCompare (v : List Char) (cs : List (List Char)) (tmp : GTmp) :
+    (mvCompare v cs tmp).1 = strCompare v cs := rfl
+
+/-- what the call records for `evaluate_if`: nothing new when some constraint is a `!=` one (the loop with `break`
+is an `any`), else the range of the whole list -/
+theorem mvCompare_recorded (v : List Char) (cs : List (List Char)) (tmp : GTmp) :
+    (mvCompare v cs tmp).2 = if cs.any isUnsupported then tmp else some (versionCheckToRange cs) := by
+  simp [mvCompare, scanUnsupported_eq_any]
+
+/-- the recorded range is sound for the version that is running: when the call answered true, the running
+version lies in the range it recorded -/
+theorem mvCompare_recorded_sound (v : List Char) (cs : List (List Char)) (tmp : GTmp)
+    (ht : SoundTmp (tokenize v) tmp) (h : (mvCompare v cs tmp).1 = true) :
+    SoundTmp (tokenize v) (mvCompare v cs tmp).2 := by
+  intro r hr
+  simp only [mvCompare] at hr
+  by_cases hu : scanUnsupported cs = true
+  · simp only [hu, if_true] at hr; exact ht r hr
+  · simp only [hu] at hr
+    have : r = versionCheckToRange cs := by simpa using hr.symm
+    rw [this]
+    exact checkToRange_complete cs {} v (by simp [Range.contains]) ((mvCompare_iff_all v cs tmp).mp h)
+
+/-- fusing the scan for `!=` with the evaluation (one loop, `break` at the first `!=`) is NOT equivalent:
+`meson.version().version_compare('!=0', '>=9')` for the running version `1` -/
+theorem mvCompare_fused_scan_counterexample :
+    mvCompareFused "1".toList ["!=0".toList, ">=9".toList] = true ∧
+    (mvCompare "1".toList ["!=0".toList, ">=9".toList] none).1 = false := by decide
+
+/-- `dependency(…, version: wanted)` on a cached / overridden / fallback dependency: accepted iff the found
+version is not the placeholder `undefined` and each constraint holds -/
+theorem depCheck_iff (found : List Char) (wanted : List (List Char)) (hw : wanted ≠ []) :
+    depCheck found wanted = true ↔
+      (found ≠ undefinedWord ∧ ∀ c ∈ wanted, versionCompare found c = true) := by
+  have hw' : wanted.isEmpty = false := by cases wanted <;> simp_all
+  simp only [depCheck, hw', Bool.false_eq_true, if_false]
+  rw [← compareMany_iff_all]
+  by_cases h1 : found = undefinedWord <;> cases h2 : (versionCompareMany found wanted).1 <;> simp [h1]
+
+theorem subprojectCheck_iff (pv : List Char) (wanted : List (List Char)) (hw : wanted ≠ []) :
+    subprojectCheck pv wanted = true ↔
+      (pv ≠ undefinedWord ∧ ∀ c ∈ wanted, versionCompare pv c = true) := depCheck_iff pv wanted hw
+
+/-- without a `version:` both accept -/
+theorem depCheck_nil (found : List Char) : depCheck found [] = true ∧ subprojectCheck found [] = true := ⟨rfl, rfl⟩
+
+/-- `find_program(…, version: wanted)`: accepted iff each constraint holds for the program's version -/
+theorem programCheck_iff_all (version : List Char) (wanted : List (List Char)) :
+    programCheck version wanted = true ↔ ∀ c ∈ wanted, versionCompare version c = true := by
+  cases wanted with
+  | nil => simp [programCheck]
+  | cons c cs => simp only [programCheck, List.isEmpty_cons, Bool.false_eq_true, if_false]; exact compareMany_iff_all _ _
+
+/-- an external dependency's own check: an unknown version satisfies no requirement, a known one iff each
+constraint holds -/
+theorem extDepCheck_iff (version : List Char) (reqs : List (List Char)) (hr : reqs ≠ []) :
+    extDepCheck version reqs = true ↔ (version ≠ [] ∧ ∀ c ∈ reqs, versionCompare version c = true) := by
+  have hr' : reqs.isEmpty = false := by cases reqs <;> simp_all
+  simp only [extDepCheck, hr', Bool.false_eq_true, if_false]
+  rw [← compareMany_iff_all]
+  cases version <;> simp
+
+/-- `project(meson_version: pv)`: accepted iff the single constraint holds for the running (stable) version; the
+range recorded for feature checks is the range of that constraint and contains the running version -/
+theorem handleMesonVersion_spec (stable pv : List Char) :
+    ((handleMesonVersion stable pv).isSome = versionCompare stable pv) ∧
+    ∀ r, handleMesonVersion stable pv = some r →
+      r = versionCheckToRange [pv] ∧ r.contains (tokenize stable) = true := by
+  unfold handleMesonVersion
+  cases h : versionCompare stable pv
+  · simp
+  · simp only [if_true, Option.isSome_some, true_and]
+    intro r hr
+    have : r = versionCheckToRange [pv] := by simpa using hr.symm
+    refine ⟨this, ?_⟩
+    rw [this]
+    exact checkToRange_complete [pv] {} stable (by simp [Range.contains]) (by simpa using h)
+
+/-! ### Conditions built from version checks with `not`, `and`, `or`, `== / != <bool>` -/
+
+/-- the value of a condition is its reference truth value: every check is the conjunction of its constraints and
+short-circuit evaluation is invisible -/
+theorem evalExpr_truth (v : List Char) (e : GExpr) (tmp : GTmp) : (evalExpr v e tmp).1 = e.truth v := by
+  induction e generalizing tmp with
+  | check cs => simp [evalExpr, mvCompare, GExpr.truth, compareMany_fst]
+  | plain b => rfl
+  | not e ih => simp [evalExpr, GExpr.truth, ih]
+  | and a b iha ihb =>
+    simp only [evalExpr, GExpr.truth]
+    rw [iha tmp]
+    cases a.truth v <;> simp [ihb]
+  | or a b iha ihb =>
+    simp only [evalExpr, GExpr.truth]
+    rw [iha tmp]
+    cases a.truth v <;> simp [ihb]
+  | cmpb e lit ne ih => simp [evalExpr, GExpr.truth, ih]
+
+/-- soundness of what a condition leaves in `tmp_meson_version`: if the condition evaluated TRUE, the range
+recorded (if any) contains the running version — a check under `not`, in the false left operand of `or`, or
+inside a comparison records nothing -/
+theorem evalExpr_sound (v : List Char) (e : GExpr) (tmp : GTmp)
+    (ht : SoundTmp (tokenize v) tmp) (h : (evalExpr v e tmp).1 = true) :
+    SoundTmp (tokenize v) (evalExpr v e tmp).2 := by
+  induction e generalizing tmp with
+  | check cs => exact mvCompare_recorded_sound v cs tmp ht h
+  | plain b => exact ht
+  | not e _ => exact ht
+  | and a b iha ihb =>
+    simp only [evalExpr] at h ⊢
+    cases hl : (evalExpr v a tmp).1 with
+    | true =>
+      simp only [hl, if_true] at h ⊢
+      exact ihb _ (iha tmp ht hl) h
+    | false => simp [hl] at h
+  | or a b iha ihb =>
+    simp only [evalExpr] at h ⊢
+    cases hl : (evalExpr v a tmp).1 with
+    | true => simp only [hl, if_true]; exact iha tmp ht hl
+    | false =>
+      simp only [hl, Bool.false_eq_true, if_false] at h ⊢
+      exact ihb tmp ht h
+  | cmpb e lit ne _ => exact ht
+
+/-- the recorded range never over-narrows: whatever the running version is and however the condition evaluates,
+every version `x` that satisfies each constraint of each positively counted check lies in the range the
+condition leaves in `tmp_meson_version` (if it leaves one that was not there before) -/
+theorem evalExpr_recorded_complete (v : List Char) (e : GExpr) (tmp : GTmp) (x : List Char)
+    (ht : ∀ r, tmp = some r → r.contains (tokenize x) = true)
+    (hx : ∀ cs ∈ e.posChecks, ∀ c ∈ cs, versionCompare x c = true) :
+    ∀ r, (evalExpr v e tmp).2 = some r → r.contains (tokenize x) = true := by
+  induction e generalizing tmp with
+  | check cs =>
+    intro r hr
+    simp only [evalExpr, mvCompare] at hr
+    by_cases hu : scanUnsupported cs = true
+    · simp only [hu, if_true] at hr; exact ht r hr
+    · simp only [hu] at hr
+      have : r = versionCheckToRange cs := by simpa using hr.symm
+      rw [this]
+      exact checkToRange_complete cs {} x (by simp [Range.contains]) (hx cs (by simp [GExpr.posChecks]))
+  | plain b => exact ht
+  | not e _ => exact ht
+  | and a b iha ihb =>
+    have ha := iha tmp ht (fun cs h => hx cs (by simp [GExpr.posChecks, h]))
+    simp only [evalExpr]
+    split
+    · exact ihb _ ha (fun cs h => hx cs (by simp [GExpr.posChecks, h]))
+    · exact ha
+  | or a b iha ihb =>
+    simp only [evalExpr]
+    split
+    · exact iha tmp ht (fun cs h => hx cs (by simp [GExpr.posChecks, h]))
+    · exact ihb tmp ht (fun cs h => hx cs (by simp [GExpr.posChecks, h]))
+  | cmpb e lit ne _ => exact ht
+
+/-- the clause condition `evaluate_if` sees is sound for the running version -/
+theorem toCond_sound (v : List Char) (e : GExpr) : CondSound (tokenize v) (e.toCond v) := by
+  intro hv r hr
+  exact evalExpr_sound v e none (by intro r h; cases h) hv r hr
+
+/-- the range in force is implied by the conditions having evaluated the way they did: when every clause
+condition is sound for the running version `x` and `x` lies in the range in force outside, then `x` lies in the
+range in force at EVERY executed statement — in the block of a true clause (narrowed), in a later clause and
+in the else block (not narrowed), however blocks are left -/
+theorem gate_running_version_in_force (x : Ver) (b : GBlock) (cur : Range) (tmp : GTmp)
+    (hb : b.AllConds (CondSound x)) (hx : cur.contains x = true) (n : Nat) (r : Range)
+    (h : (n, r) ∈ (runBlock b cur tmp).log) : r.contains x = true := by
+  obtain ⟨path, hp, hiff⟩ := gate_sound b cur tmp n r h
+  exact (hiff x).mpr ⟨hx, pathsBlock_ok x b hb (n, path) hp⟩
+
+/-- … in particular for every block whose conditions are built from `meson.version().version_compare()` calls,
+opaque booleans, `not`, `and`, `or` and comparisons with a boolean, evaluated by the running version `v` -/
+theorem gate_exprs_running_version_in_force (v : List Char) (b : GBlock) (cur : Range) (tmp : GTmp)
+    (hb : b.AllConds (fun c => ∃ e : GExpr, c = e.toCond v)) (hx : cur.contains (tokenize v) = true)
+    (n : Nat) (r : Range) (h : (n, r) ∈ (runBlock b cur tmp).log) : r.contains (tokenize v) = true :=
+  gate_running_version_in_force (tokenize v) b cur tmp
+    (GBlock.AllConds.mono (fun c ⟨e, he⟩ => he ▸ toCond_sound v e) b hb) hx n r h
+
+/-- keeping what a check under `not` recorded is unsound: `if not meson.version().version_compare('>=9')` runs
+its block for the running version `1` under the range `>=9` -/
+theorem not_without_restore_counterexample :
+    ¬ CondSound (tokenize "1".toList) ((GExpr.not (.check [">=9".toList])).toCondNoRestore "1".toList) := by
+  intro h
+  have := h (by decide) _ rfl
+  revert this; decide
+
+/-- … and so is keeping what the false left operand of `or` recorded: `if version_compare('>=9') or true` -/
+theorem or_without_restore_counterexample :
+    ¬ CondSound (tokenize "1".toList)
+      ((GExpr.or (.check [">=9".toList]) (.plain true)).toCondNoRestore "1".toList) := by
+  intro h
+  have := h (by decide) _ rfl
+  revert this; decide
+
+/-- … and what an operand of a comparison recorded: `if version_compare('>=9') == false` -/
+theorem cmp_without_restore_counterexample :
+    ¬ CondSound (tokenize "1".toList)
+      ((GExpr.cmpb (.check [">=9".toList]) false false).toCondNoRestore "1".toList) := by
+  intro h
+  have := h (by decide) _ rfl
+  revert this; decide
+
 /-! ### Non-vacuity: concrete instances meeting the hypotheses -/
 
 example : vlt (tokenize "1.2".toList) (tokenize "1.10".toList) = true := by decide
@@ -417,5 +637,19 @@ example :
         (.cons (.ifs (.cons ⟨some lt3, true⟩ (.cons (.probe 7) .nil) (.els .nil))) (.cons (.probe 8) .nil))
         (.els .nil))) (.cons (.probe 9) .nil)
     (pathsBlock prog) = ([(7, [ge1, lt3]), (8, [ge1]), (9, [])], .none) := by decide
+example : (mvCompare "1.5".toList [">=1.0".toList, "<2".toList] none) =
+    (true, some (versionCheckToRange [">=1.0".toList, "<2".toList])) := by decide
+example : depCheck "1.2".toList [">=1.0".toList] = true ∧ depCheck "undefined".toList [">=0".toList] = false := by decide
+example :
+    let e : GExpr := .and (.check [">=1.0".toList]) (.not (.check [">=9".toList]))
+    (e.toCond "1.5".toList).own = some (versionCheckToRange [">=1.0".toList]) ∧
+    (e.toCond "1.5".toList).val = true := by decide
+example :
+    let v := "1.5".toList
+    let prog : GBlock := .cons (.ifs (.cons ((GExpr.not (.check [">=9".toList])).toCond v)
+        (.cons (.probe 1) .nil) (.els .nil))) .nil
+    prog.AllConds (fun c => ∃ e : GExpr, c = e.toCond v) := by
+  simp only [GBlock.AllConds, GStmt.AllConds, GClauses.AllConds]
+  exact ⟨⟨⟨_, rfl⟩, ⟨trivial, trivial⟩, trivial⟩, trivial⟩
 
 end MesonModel.Props.C19
